@@ -23,6 +23,9 @@ def mk(it, item):
     if cls == "Partial":
         return it.call(cref(model, cls), [e, extra], kw)
     if cls == "LocatedDifferential":
+        if early:      # the object handed out by Differential(e, compute_early=True).at(p)
+            d = it.call(cref(model, "Differential"), [e], {"compute_early": True})
+            return it.call(it.getattr(d, "at"), [make_point_concrete(it, extra)], {})
         return it.call(cref(model, cls), [e, make_point_concrete(it, extra)], {})
     return it.call(cref(model, cls), [e], kw)
 
@@ -158,6 +161,10 @@ def check(rep):
         items.append(("deriv", ("LocatedDifferential", t, {"x": 1, "y": 2}, False)))
         items.append(("deriv", ("LocatedDifferential", t, {"y": 2, "x": 1}, False)))
         items.append(("deriv", ("LocatedDifferential", t, {"x": 1, "y": 3}, False)))
+    for t in (("Logarithm", x, 2), ("NthRoot", x, 3), ("Logarithm", x, 0.5), ("Divide", ("Constant", 1), x)):
+        for pt in ({"x": 3}, {"x": 0.1}):
+            items.append(("deriv", ("LocatedDifferential", t, pt, False)))
+            items.append(("deriv", ("LocatedDifferential", t, pt, True)))
     for early in (False, True):
         items.append(("deriv", ("Derivative", x, None, early)))
         items.append(("deriv", ("Derivative", ("Sine", x), None, early)))
